@@ -60,7 +60,10 @@ class Lexer(object):
     @TOKEN(r'("(\\.|[^"\\])*")|(\'(\\.|[^\'\\])*\')')
     def t_STRING(self, t):
         # Remove the enclosing quotes (only those) and interpret escapes without mangling non-ASCII characters
-        t.value = t.value[1:-1].encode("latin-1", "backslashreplace").decode("unicode_escape")
+        try:
+            t.value = t.value[1:-1].encode("latin-1", "backslashreplace").decode("unicode_escape")
+        except UnicodeDecodeError:
+            raise SyntaxError("Invalid escape sequence in the string at position {0}".format(t.lexpos))
         return t
 
     @TOKEN(r"[\r\n]+")
